@@ -4,8 +4,11 @@ package main
 // They follow a plan chosen by the specification and log every call.
 
 import (
+	"bufio"
+	"bytes"
 	"errors"
 	"io"
+	"strings"
 )
 
 // ErrInjected is the transport failure value E of the specification.
@@ -16,6 +19,7 @@ type readerPlan struct {
 	Fate   string `json:"fate"`   // "eof" | "err" | "" (= eof)
 	With   bool   `json:"with"`   // fate returned together with the last delivered bytes
 	Cut    *int   `json:"cut"`    // absent: whole stream; else only bytes[:cut] are ever delivered
+	Rich   bool   `json:"rich"`   // the reader handed to ReadPacket also offers ReadByte (io.ByteReader)
 }
 
 type readCall struct {
@@ -32,6 +36,62 @@ type scriptedReader struct {
 	carry int // rest of a chunk that did not fit the caller's buffer
 	calls []readCall
 	dead  bool
+	rich  bool
+	held  error // ReadByte: the fate that came together with the byte just returned
+}
+
+// richReader is the scripted reader with the extra method set of the standard readers a library may look for
+// (io.ByteReader); every ReadByte is a logged Read of one byte.
+type richReader struct{ *scriptedReader }
+
+func (r richReader) ReadByte() (byte, error) {
+	if r.held != nil {
+		err := r.held
+		r.held = nil
+		return 0, err
+	}
+	var b [1]byte
+	for {
+		n, err := r.Read(b[:])
+		if n == 1 {
+			r.held = err
+			return b[0], nil
+		}
+		if err != nil {
+			return 0, err
+		}
+	}
+}
+
+// wrappedReader: what the caller hands to ReadPacket instead of the scripted reader itself.
+type wrappedReader struct {
+	rd       io.Reader
+	consumed func() int // bytes ReadPacket has taken out of rd so far
+}
+
+func wrapReader(kind string, r *scriptedReader) *wrappedReader {
+	switch kind {
+	case "bufio":
+		br := bufio.NewReader(r)
+		return &wrappedReader{br, func() int { return r.pos - br.Buffered() }}
+	case "bufio16":
+		br := bufio.NewReaderSize(r, 16)
+		return &wrappedReader{br, func() int { return r.pos - br.Buffered() }}
+	case "bytes.Reader":
+		br := bytes.NewReader(r.data)
+		return &wrappedReader{br, func() int { return len(r.data) - br.Len() }}
+	case "bytes.Buffer":
+		bb := bytes.NewBuffer(append([]byte{}, r.data...))
+		return &wrappedReader{bb, func() int { return len(r.data) - bb.Len() }}
+	case "strings.Reader":
+		sr := strings.NewReader(string(r.data))
+		return &wrappedReader{sr, func() int { return len(r.data) - sr.Len() }}
+	case "limited":
+		lr := &io.LimitedReader{R: bytes.NewReader(r.data), N: int64(len(r.data))}
+		return &wrappedReader{lr, func() int { return len(r.data) - int(lr.N) }}
+	}
+	fatal("unknown reader kind %q", kind)
+	return nil
 }
 
 func newScriptedReader(data []byte, plan readerPlan) *scriptedReader {
@@ -95,6 +155,24 @@ type writerPlan struct {
 	Kind string `json:"kind"` // "all" | "fail" (accept K bytes in total, then E)
 	K    int    `json:"k"`
 	Step int    `json:"step"` // >0: accept at most Step bytes per call without error? (not io.Writer conforming) unused
+	Rich bool   `json:"rich"` // the writer also offers WriteByte, WriteString and ReadFrom
+}
+
+// richWriter: the scripted writer with the extra method set of bytes.Buffer / bufio.Writer; each call is a logged Write.
+type richWriter struct{ *scriptedWriter }
+
+func (w richWriter) WriteByte(c byte) error {
+	_, err := w.Write([]byte{c})
+	return err
+}
+func (w richWriter) WriteString(s string) (int, error) { return w.Write([]byte(s)) }
+func (w richWriter) ReadFrom(r io.Reader) (int64, error) {
+	data, err := io.ReadAll(r)
+	if err != nil {
+		return 0, err
+	}
+	n, err := w.Write(data)
+	return int64(n), err
 }
 
 type writeCall struct {
